@@ -21,7 +21,7 @@ ID = "C14"
 LEVEL = "exploration"
 RULE = (
     "case = (entry point, configuration, text). Entry points: Bf3File.read_file (stream/path, MAC on/off), Bec2File.read_file with decryptor sets {none, public-only "
-    "ECC, matching, wrong private key, wrong AES key, wrong security code, all}, Bf3File.bf2_import (both modes), ConfigId.create_from_str, pfid2_filter_to_str. Texts: "
+    "ECC, matching, wrong private key, wrong AES key, wrong security code, all}, Bf3File.bf2_import (both modes, stream/path), ConfigId.create_from_str, pfid2_filter_to_str. Texts: "
     "ALL single-character replacements/deletions (over a 7-character alphabet) and ALL prefixes of valid files per format, multi-mutations, line swaps/duplications, token "
     "insertions, grammar-generated near-valid files with MACs recomputed (deep paths), random text/hex. Oracle: returns, or raises FormatError/ValueError subclasses; "
     "step count within a budget linear in the input size; global state unchanged. distinct = digest of (entry, config, text); non-trivial = text differs from the valid file"
@@ -51,7 +51,7 @@ def plan(tier, seed):
 
 def mandatory_bins(tier):
     b = ["entry:bf3_stream", "entry:bf3_path", "entry:bf3_nomac", "entry:bec2_none", "entry:bec2_public_only_ecc", "entry:bec2_matching", "entry:bec2_wrong_private", "entry:bec2_wrong_aes_key",
-         "entry:bec2_wrong_code", "entry:bec2_all", "entry:bf2_enforce", "entry:bf2_no_enforce", "entry:configid", "entry:pfid2", "all_prefixes", "all_single_char_mutations",
+         "entry:bec2_wrong_code", "entry:bec2_all", "entry:bf2_enforce", "entry:bf2_no_enforce", "entry:bf2_path", "entry:bec2_path_nomac", "entry:configid", "entry:pfid2", "all_prefixes", "all_single_char_mutations",
          "line_swap", "line_duplicate", "token_insert", "multi_mutation", "random_text", "random_hex", "global_state_compared", "reference_inputs_rechecked", "returned_normally", "raised_format_error", "raised_value_error"]
     b += ["deep:" + d for d in DEEP]
     return b
@@ -205,12 +205,28 @@ def entries_for(ns, mat, fmt, rng, scratch, light=False):
         has_ecc = any(s["kind"] == "ecc" for s in mat.specs)
         for name, encs in sets.items():
             out.append(("bec2_" + name, lambda t, encs=encs: B.Bec2File.read_file(io.StringIO(t), encs, True)))
+
+        def bec2_path(t, encs=sets["matching"]):
+            p = os.path.join(scratch, "m.bec2")
+            with open(p, "w", encoding="utf-8", newline="") as f:
+                f.write(t)
+            return B.Bec2File.read_file(p, encs, False)
+
+        out.append(("bec2_path_nomac", bec2_path))
         if light:
             keep = ("bec2_matching", "bec2_none") if has_ecc else ("bec2_matching", "bec2_wrong_aes_key", "bec2_wrong_code", "bec2_all")
             out = [e for e in out if e[0] in keep]
     elif fmt == "bf2":
         out.append(("bf2_enforce", lambda t: BF.Bf3File.bf2_import(io.StringIO(t))))
         out.append(("bf2_no_enforce", lambda t: BF.Bf3File.bf2_import(io.StringIO(t), False)))
+
+        def bf2_path(t):
+            p = os.path.join(scratch, "m.bf2")
+            with open(p, "w", encoding="utf-8", newline="") as f:
+                f.write(t)
+            return BF.Bf3File.bf2_import(p)
+
+        out.append(("bf2_path", bf2_path))
     return out
 
 
